@@ -13,7 +13,7 @@ TB_CODEC_ENC = [
     "Box<dyn MappingsEncoder> dispatch in create_encoder and the for_each driver loops of encode_mappings/get_map are outside the proof (rule D1 drops the trait)",
 ]
 
-from vx.kstages import k1_replace_inv, k2_eq_hash  # noqa: E402
+from vx.kstages import k1_replace_inv, k2_eq_hash, k4_with_indices  # noqa: E402
 from vx.witness import codec_witness, mixed_witness, replace_witness  # noqa: E402
 
 PLAN = {
@@ -66,13 +66,17 @@ PLAN = {
         "level": "proof",
         "witness": codec_witness,
         "verus_units": ["codec_enc"],
+        "extra_stages": [k4_with_indices],
+        "kani": True,
+        "engine": "verus-extract + kani-scratch",
         "technique": "contract-based deductive verification (Verus): the unsafe call's safety precondition as a `requires` on its assume_specification, discharged from the wire-alphabet invariant",
         "claim": "Partial, unbounded proof: both String::from_utf8_unchecked call sites (encoder.rs drain x2) are reached only with ASCII bytes. "
-                 "Rope get_unchecked sites, WithIndices and the lifetime transmutes are not decided by this stage.",
+                 "Bounded stand-in (Kani): WithIndices::<&str>::substring reaches str::get_unchecked only with in-range char-boundary ranges, for all index pairs over a text catalogue. "
+                 "Rope get_unchecked sites, the Rope instance of WithIndices and the lifetime transmutes are not decided.",
         "note": "Partial. The `requires` (all bytes < 128) on from_utf8_unchecked is a strengthening of its documented safety condition (valid UTF-8).",
         "trusted_base": TB_VERUS + TB_CODEC_ENC,
         "assumptions": ["fields < 2^30"],
-        "not_covered": ["rope.rs get_unchecked (6 sites)", "WithIndices::substring get_unchecked", "lifetime-extending transmutes", "concurrent use"],
+        "not_covered": ["rope.rs get_unchecked (6 sites)", "WithIndices<Rope>::substring", "lifetime-extending transmutes", "concurrent use"],
         "design_ref": "DESIGN.md §4/C19",
     },
     "C05": {
